@@ -4,6 +4,7 @@ import (
 	"bytes"
 	"context"
 	"encoding/json"
+	"flag"
 	"fmt"
 	"os"
 	"os/exec"
@@ -58,4 +59,83 @@ func tryReplay(fc *FnCtx, o *Obligation, inputs map[string]string) (string, bool
 		s = s[:6000] + "\n...[truncated]"
 	}
 	return fmt.Sprintf("$ (cd %s && go test -overlay %s -vet=off -count=1 -v -timeout 60s -run TestGovcReplay .)\n%s", pkgDir, ovFile, s), strings.Contains(s, "REPRODUCED") && !strings.Contains(s, "NOT-REPRODUCED"), true
+}
+
+// cmdReplay re-decides the obligation recorded in a replay file from /repo's current source: the VCs of its function are
+// generated again, the obligation with the recorded name is solved again, and the verdict is printed. Exit 1 when the
+// obligation still fails (or is no longer generated), 0 when it is now discharged.
+func cmdReplay(args []string) int {
+	fs := flag.NewFlagSet("replay", flag.ExitOnError)
+	repo := fs.String("repo", "/repo", "repository")
+	fs.Parse(args)
+	if fs.NArg() < 1 {
+		fmt.Fprintln(os.Stderr, "usage: govc replay <replay.json>")
+		return 2
+	}
+	b, err := os.ReadFile(fs.Arg(0))
+	if err != nil {
+		fmt.Fprintln(os.Stderr, err)
+		return 2
+	}
+	var rec struct {
+		Property   string `json:"property"`
+		Obligation string `json:"obligation"`
+		Function   string `json:"function"`
+	}
+	if err := json.Unmarshal(b, &rec); err != nil || rec.Obligation == "" {
+		fmt.Fprintln(os.Stderr, "not a replay file")
+		return 2
+	}
+	g := newGen()
+	if err := g.load(*repo, defaultPatterns); err != nil {
+		fmt.Fprintln(os.Stderr, err)
+		return 2
+	}
+	fn := g.funcs[rec.Function]
+	if fn == nil {
+		fmt.Printf("REPLAY obligation=%s result=function-no-longer-exists\n", rec.Obligation)
+		return 1
+	}
+	fc := g.genFunction(fn, g.contracts[rec.Function], true)
+	if fc.err != nil {
+		fmt.Printf("REPLAY obligation=%s result=generator-error %v\n", rec.Obligation, fc.err)
+		return 2
+	}
+	var keep []*Obligation
+	for _, o := range fc.obls {
+		if o.Name() == rec.Obligation {
+			keep = append(keep, o)
+		}
+	}
+	if len(keep) == 0 {
+		fmt.Printf("REPLAY obligation=%s result=not-generated-any-more\n", rec.Obligation)
+		return 1
+	}
+	fc.obls = keep
+	work, _ := os.MkdirTemp("", "govc-replay-")
+	defer os.RemoveAll(work)
+	solveFunction(fc, SolverCfg{QueryTimeout: 60 * time.Second, IncTimeoutMs: 5000, WorkDir: work, Jobs: 4})
+	o := keep[0]
+	fmt.Printf("REPLAY property=%s obligation=%s verdict=%s solver=%s\n", rec.Property, o.Name(), o.Verdict, o.Solver)
+	if o.Verdict == "refuted" {
+		for k, v := range o.Model {
+			fmt.Printf("  %s = %s\n", k, v)
+		}
+		if fc.con != nil {
+			inputs := map[string]string{}
+			lits := fc.q.litTable()
+			for _, in := range o.Inputs {
+				if v, ok := o.Model[in.Term]; ok {
+					inputs[in.Path] = renderValue(v, lits)
+				}
+			}
+			if out, ok, ran := tryReplay(fc, o, inputs); ran {
+				fmt.Printf("  replay on the real code: reproduced=%v\n%s\n", ok, out)
+			}
+		}
+	}
+	if o.Verdict == "discharged" {
+		return 0
+	}
+	return 1
 }
